@@ -174,7 +174,7 @@ pub fn one_history(rng: &mut StdRng, id: String, out: &mut Vec<Value>, persist: 
     let calls: Vec<HCall> = (0..len)
         .map(|_| loop {
             let c = rand_call(rng);
-            if !followable || ["grounded", "complete", "stable", "bddop"].contains(&c.c) {
+            if !followable || ["grounded", "complete", "stable", "prefilter", "bddop"].contains(&c.c) {
                 break c;
             }
         })
